@@ -446,6 +446,7 @@ func c20CLI(e *env) {
 		{"every-run-succeeds", map[string]string{"goimports": "exit 0\n", "npx": probeOK + "exit 0\n"}, false},
 		{"tools-absent", map[string]string{"npx": "exit 1\n"}, false},
 	}
+	c20Dart(e, dir, bin, mod, goDir)
 	for si, sc := range scenarios {
 		fake := filepath.Join(dir, fmt.Sprintf("fake%d", si))
 		os.MkdirAll(fake, 0o755)
@@ -647,4 +648,71 @@ func (e *env) writeC20(prog c20prog, cfgs []c20cfg, results []c20res, _ interfac
 	side, _ := json.Marshal(inputs)
 	check(os.WriteFile(filepath.Join(e.out, "cases_C20.json"), side, 0o644))
 	e.m.CaseFiles = append(e.m.CaseFiles, "cases_C20")
+}
+
+// c20Dart: the Dart files are added to the outputs inside saveOutputs; their formatting requests must be waited for
+// like the others: when the command ends normally every Dart file has been formatted (the stand-in tool leaves a
+// mark), and a failing "dart format" run ends the command with an error.
+func c20Dart(e *env, dir, bin, mod, goDir string) {
+	for si, failing := range []bool{false, true} {
+		fake := filepath.Join(dir, fmt.Sprintf("fakedart%d", si))
+		os.MkdirAll(fake, 0o755)
+		marks := filepath.Join(dir, fmt.Sprintf("dartmarks%d", si))
+		os.RemoveAll(marks)
+		os.MkdirAll(marks, 0o755)
+		exit := "exit 0"
+		if failing {
+			exit = "exit 65"
+		}
+		writeFile(filepath.Join(fake, "dart"), "#!/bin/sh\ncase \"$*\" in *--help*) exit 0;; esac\nsleep 0.4\ntouch "+marks+"/$(basename \"$2\")\n"+exit+"\n")
+		os.Chmod(filepath.Join(fake, "dart"), 0o755)
+		writeFile(filepath.Join(fake, "npx"), "#!/bin/sh\nexit 1\n")
+		os.Chmod(filepath.Join(fake, "npx"), 0o755)
+		outDir := filepath.Join(dir, fmt.Sprintf("outdart%d", si))
+		os.MkdirAll(outDir, 0o755)
+		if old, _ := filepath.Glob(filepath.Join(mod, "*.dart")); len(old) > 0 {
+			for _, f := range old {
+				os.Remove(f)
+			}
+		}
+		cmd := exec.Command(bin, "models.go", "dart:"+outDir)
+		cmd.Dir = mod
+		env := []string{"PATH=" + fake + ":" + goDir + ":/usr/bin:/bin", "HOME=" + os.Getenv("HOME"), "GORACE=halt_on_error=0 exitcode=0"}
+		for _, kv := range os.Environ() {
+			if strings.HasPrefix(kv, "GO") && !strings.HasPrefix(kv, "GORACE=") {
+				env = append(env, kv)
+			}
+		}
+		cmd.Env = env
+		var outb bytes.Buffer
+		cmd.Stdout, cmd.Stderr = &outb, &outb
+		err := cmd.Run()
+		text := outb.String()
+		e.m.Evaluations++
+		e.m.OracleRuns++
+		e.m.Nontrivial++
+		e.m.count("cli_dart_scenario")
+		input := map[string]interface{}{"scenario": map[string]interface{}{"dart_format_fails": failing}, "command": "gomacro models.go dart:<out dir>"}
+		if strings.Contains(text, "DATA RACE") {
+			e.m.fail(oracleFailure{What: "data race detected by the Go race detector in the goroutines of saveOutputs (Dart outputs)", Input: input, Got: tail(firstRace(text), 3000)})
+		}
+		if !strings.Contains(text, "Waiting for formatters") {
+			e.m.fail(oracleFailure{What: "the command did not reach the formatting stage with a dart action: " + tail(text, 600), Input: input, NoInput: true})
+			continue
+		}
+		// in single-file mode the Dart files are written in the working directory
+		written, _ := filepath.Glob(filepath.Join(mod, "*.dart"))
+		marked, _ := filepath.Glob(filepath.Join(marks, "*.dart"))
+		if failing {
+			if err == nil {
+				e.m.fail(oracleFailure{What: "a failing run of the Dart formatter did not reach the user: the command ended normally", Input: input, Got: tail(text, 800)})
+			}
+			continue
+		}
+		if err != nil {
+			e.m.fail(oracleFailure{What: "no formatter run failed and the command ended with an error (dart action)", Input: input, Got: tail(text, 800)})
+		} else if len(written) == 0 || len(marked) != len(written) {
+			e.m.fail(oracleFailure{What: fmt.Sprintf("the command ended before its formatting requests were served: %d Dart files written, %d formatted", len(written), len(marked)), Input: input, Got: tail(text, 800)})
+		}
+	}
 }
